@@ -131,7 +131,7 @@ def reader_check(case):
             assert np.min(np.abs(volts - thr)) > 1e-5
         data[:, nxa] = signed
         stem = "sync_g0_t0.nidq"
-        fbin = synth.write_recording(d, stem, data, synth.nidq_items(ns, xa=nxa, dw=1, fs=fs))
+        fbin = synth.write_recording(d, stem, data, synth.nidq_items(ns, xa=nxa, dw=1, fs=fs, magain=(10 if nxa == 2 else 1), mngain=200))     # analog sync lines are acquired without gain, whatever the gains of the other channel kinds
         expected = refmodel.bits(words)
         if nxa:
             expected = np.concatenate([expected, np.stack(an_expected, axis=1)], axis=1)
